@@ -116,7 +116,7 @@ class StlAstParserVisitor(LtlAstParserVisitor, StlParserVisitor):
 
         val = self.const_val_dict[const_name]
 
-        out = Fraction(Decimal(val))
+        out = Fraction(Decimal(str(val)))
 
         if ctx.unit() is None:
             unit = ''
